@@ -355,7 +355,20 @@ class C14(CheckBase):
         p, sh = ctx.p, ctx.sh
         for t in ("A", "B", "C"):
             tk = m.tok[t]
-            if not tk.exists or tk.held != 0 or (t not in self.tokens and t != "C"):
+            if not tk.exists or (t not in self.tokens and t != "C"):
+                continue
+            if tk.held != 0:
+                # ... and a token that HAS an open session must refuse it right now, wherever its session sits among the closed ones of other tokens
+                d0 = sh.depth
+                sh.snap()
+                try:
+                    r = p.InitToken(m.slot[t], SO[t][tk.so], t)
+                    ctx.count("lookahead_reinit_with_session")
+                    if r["rv"] == 0:
+                        raise Violation("C14|reinit|accepted-with-correct-so-pin-although-a-session-is-open",
+                                        {"token": t, "lookahead": True, "sessions_held": {x: m.tok[x].held for x in m.tok if m.tok[x].exists}, "opening_order": [tt for _h, tt in m.held]})
+                finally:
+                    sh.unwind(d0)
                 continue
             d0 = sh.depth
             sh.snap()
